@@ -265,6 +265,21 @@ def generate_executor(repo=None):
         raise translate.TranslateError("translation of get_reusable_executor no longer matches: shutdown branch not found")
     tr = translate.Tr({"subst": {"executor._flags.broken": ("broken", "bool"), "executor._flags.shutdown": ("shutdown", "bool")}})
     c2 = _test_expr(tr, hits[0].test, {"reuse": ("reuse", "bool")}, "get_reusable_executor")
+    # the replacement of an executor that cannot be reused: built with the REQUESTED size, whatever the reason
+    br = hits[0]
+    rec = [n for n in ast.walk(br) if isinstance(n, ast.Call) and ast.unparse(n.func) == "cls.get_reusable_executor"]
+    if len(rec) != 1 or "max_workers=max_workers" not in [ast.unparse(k) for k in rec[0].keywords]:
+        raise translate.TranslateError("translation of get_reusable_executor no longer matches: the replacement is not built by "
+                                       "cls.get_reusable_executor(max_workers=max_workers, ...)")
+    st_mw = [n for n in ast.walk(br) if isinstance(n, (ast.Assign, ast.AugAssign)) and any(
+        ast.unparse(t) == "max_workers" for t in (n.targets if isinstance(n, ast.Assign) else [n.target]))]
+    if not st_mw:
+        repl = "true"
+    elif all(isinstance(n, ast.Assign) and ast.unparse(n.value) == "executor._max_workers" for n in st_mw):
+        repl = "false"       # (some path of) the replacement takes the size of the executor it replaces
+    else:
+        raise translate.TranslateError("translation of get_reusable_executor no longer matches: max_workers reassigned in the "
+                                       "replacement branch (%s)" % [ast.unparse(n) for n in st_mw])
     resizes = [n for n in ast.walk(node) if isinstance(n, ast.Call) and ast.unparse(n.func) == "executor._resize"]
     if len(resizes) != 1 or ast.unparse(resizes[0]) != "executor._resize(max_workers)":
         raise translate.TranslateError("translation of get_reusable_executor no longer matches: executor._resize(max_workers) not found")
@@ -286,7 +301,10 @@ def generate_executor(repo=None):
         "(* get_reusable_executor shuts the current executor down and builds a new one when ... *)\n"
         "Definition needs_new (broken shutdown reuse : bool) : bool := %s.\n\n"
         "(* get_memmapping_executor asks to reuse the executor when ... *)\n"
-        "Definition args_reuse (args_none args_equal : bool) : bool := %s.\n" % (c1, c2, c3))
+        "Definition args_reuse (args_none args_equal : bool) : bool := %s.\n\n"
+        "(* the executor that replaces one which cannot be reused (broken, shut down, other arguments) is built with the requested\n"
+        "   max_workers on every path (no reassignment of max_workers in that branch) *)\n"
+        "Definition replacement_size_is_requested : bool := %s.\n" % (c1, c2, c3, repl))
     out = os.path.join(common.COQ, "Gen", "T_executor.v")
     changed = common.write_if_changed(out, text)
     return out, changed, []
